@@ -10,7 +10,7 @@ import Emboss.Lemmas.TextIntWrite
 import Emboss.Lemmas.TextWrite
 import Emboss.Lemmas.TextStruct
 import Emboss.Lemmas.TextLayout
-import Emboss.Lemmas.TextRoundFuel
+import Emboss.Lemmas.TextRoundNeg
 import Emboss.Model.TextRead
 namespace Emboss.Text
 open Spec Emboss.Deps
@@ -309,6 +309,37 @@ theorem C06_text_roundtrip_partial (o : Opts) (v : TVal) (s : RShape) (ho : o.Re
     ∃ rest, updateFromText s (writeToString o v) = .ok (writesVal [] v) rest ∧
       discardWs false rest = [] :=
   updateFromText_writeToString o v s ho hv hm hml
+
+/-- The hypothesis of `C06_text_roundtrip_partial` is exact, and outside it the failure is a
+clean rejection: for a well-formed tree of static shape and re-readable options the reader model
+applied to the writer model's text either returns the emitted leaves (iff `noMultilineArray o v`)
+or *fails* (`UpdateFromText` returns false: iff some array with two or more elements is written
+in multi-line mode) — it never returns other values and never runs out of fuel.  The failing
+side is the open finding `multiline-array-elements-not-comma-separated`; the same induction as
+the positive part, up to the first element of the first such array, where `afterElem` meets the
+`[` of the next index marker (`neg_val`, `neg_elemsML`, `neg_fields`). -/
+theorem C06_text_roundtrip_hypothesis_exact (o : Opts) (v : TVal) (s : RShape) (ho : o.Rereadable)
+    (hv : v.WF) (hm : Matches s v) :
+    (noMultilineArray o v ↔
+      ∃ rest, updateFromText s (writeToString o v) = .ok (writesVal [] v) rest ∧
+        discardWs false rest = []) ∧
+    (¬ noMultilineArray o v ↔ updateFromText s (writeToString o v) = .fail) := by
+  have hpos := updateFromText_writeToString o v s ho hv hm
+  have hneg := updateFromText_writeToString_fail o v s ho hv hm
+  constructor
+  · constructor
+    · exact hpos
+    · intro ⟨rest, h, _⟩
+      apply Classical.byContradiction
+      intro hn
+      rw [hneg hn] at h
+      cases h
+  · constructor
+    · exact hneg
+    · intro h hml
+      obtain ⟨rest, h', _⟩ := hpos hml
+      rw [h] at h'
+      cases h'
 
 /-! Non-vacuity: `exTree` (integer, read-only virtual field, enum by name, two-element `UInt:8`
 array, boolean) has the static shape `exShape`; single-line, base 16: the hypotheses hold and the
